@@ -457,7 +457,66 @@ fn histories(ctx: &Ctx, rep: &mut Report) {
     rep.require("call_histories", 16);
 }
 
+/// OBJECT-COUNT histories, run before any other thread of this leg exists: verify under key A,
+/// create W - 3 .. W + 3 other public-key objects (decoding is cheap), then a fresh object of
+/// key B, and verify an honest signature of B on the same thread, for W = 2^8 and 2^16. A tag,
+/// serial number or slot index that wraps after W objects makes B look like A.
+fn object_count_histories<V: Fv>(ctx: &Ctx, rep: &mut Report) {
+    let (keys, _) = pool::keys::<V>(ctx.seed, "c01-objcount", 2);
+    if keys.len() < 2 {
+        return;
+    }
+    let (a, b) = (&keys[0], &keys[1]);
+    let (pa, pb) = (V::pk_to_bytes(&a.pk), V::pk_to_bytes(&b.pk));
+    let hb = spec::pk_fields(&pb[1..]);
+    let (ma, mb) = (b"object count A".to_vec(), b"object count B".to_vec());
+    let (sa, sb) = match (monitored(|| V::sign(&ma, &a.sk)), monitored(|| V::sign(&mb, &b.sk))) {
+        (Ok(x), Ok(y)) => (x, y),
+        _ => return,
+    };
+    let sbb = V::sig_to_bytes(&sb);
+    for w in [256usize, 65536] {
+        if w == 65536 && V::N == 1024 && !ctx.thorough() {
+            // the larger parameter set decodes more slowly; quick tier: Falcon-512 only
+            continue;
+        }
+        let a_obj = match V::pk_from_bytes(&pa) {
+            Ok(k) => k,
+            Err(_) => return,
+        };
+        let _ = monitored(|| V::verify(&ma, &sa, &a_obj));
+        // w - 4 other objects, then seven rounds of: verify under A, one fresh B object, verify B
+        for _ in 0..w.saturating_sub(4) {
+            let _ = V::pk_from_bytes(&pb);
+        }
+        for i in 0..7 {
+            let _ = monitored(|| V::verify(&ma, &sa, &a_obj));
+            let b_obj = match V::pk_from_bytes(&pb) {
+                Ok(k) => k,
+                Err(_) => return,
+            };
+            rep.evaluations += 1;
+            let v1 = monitored(|| V::verify(&mb, &sb, &b_obj));
+            let v2 = spec::verify_traced(&mb, &sbb[1..41], &sbb[41..], &hb).0;
+            match v1 {
+                Ok(true) if v2 => rep.count("object_count_history_verifications", 1),
+                Ok(v) => rep.violation(
+                    "sign:signature-rejected-in-an-object-count-history",
+                    format!("{}: an honest signature is rejected (verify = {}, reference = {}) under a freshly decoded public key that is about the {}-th public-key object created since the key verified just before it on this thread (offset {})", V::NAME, v, v2, w, i),
+                    json!({"variant": V::NAME, "key_seed": hex(&b.seed), "msg": hex(&mb), "native": true, "history": format!("object count {} offset {}", w, i)}),
+                ),
+                Err(p) => rep.violation(&format!("panic:verify@{}", short_loc(&p.location)), p.message.clone(), json!({"variant": V::NAME, "key_seed": hex(&b.seed), "msg": hex(&mb), "native": true})),
+            }
+        }
+        rep.count("object_count_histories", 1);
+        rep.nontrivial(format!("objcount|{}|{}", V::NAME, w).as_bytes());
+    }
+}
+
 pub fn native(ctx: &Ctx, rep: &mut Report) {
+    object_count_histories::<F512>(ctx, rep);
+    object_count_histories::<F1024>(ctx, rep);
+    rep.require("object_count_histories", 3);
     histories(ctx, rep);
     // Falcon-1024 compresses into a tight budget: about one signature in a thousand takes the
     // compression-retry branch naturally, so this leg signs enough to see it
